@@ -449,3 +449,150 @@ def run_local(ops):
             else:
                 one_turn()
         return list(t.entered)
+
+
+# ---------------------------------------------------------------------------------------------------------------
+# real Tubs on the in-memory network: A calls B; some calls carry a reference to an object of a third Tub C, which B
+# has to resolve with the real Tub.getReference (connection to C, negotiation, getReferenceByName) while later calls
+# keep arriving.  Every byte / FIN is moved by the seeded scheduler in pieces of random size.
+
+class NetTarget(Referenceable):
+    def __init__(self):
+        self.entered = []
+        self.gifts = []
+
+    def remote_m(self, cid, a=None, g=None):
+        self.entered.append(cid)
+        if g is not None:
+            self.gifts.append((cid, type(g).__name__))
+        return cid
+
+
+class Other(Referenceable):
+    def remote_hello(self):
+        return "c"
+
+
+def run_tubs(plan, rng, chunk_sizes, c_reachable=True):
+    """plan: list of 'p' (plain) | 'g' (gift) | 's' (streaming argument, released later).  Returns
+    dict(entered, results, steps)"""
+    with E.quiet():
+        E.reset_clock()
+        net = E.Net()
+        pems = E.pems_sorted(3)
+        A = E.make_tub(net, "a", pems[0][1])
+        B = E.make_tub(net, "b", pems[1][1])
+        C = E.make_tub(net, "c", pems[2][1])
+        tb, tc = NetTarget(), Other()
+        fb = B.registerReference(tb)
+        fc = C.registerReference(tc)
+        got = {}
+        A.getReference(fb).addBoth(lambda r: got.setdefault("b", r))
+        A.getReference(fc).addBoth(lambda r: got.setdefault("c", r))
+        E.turn()
+        net.run(rng)
+        rb, rc = got.get("b"), got.get("c")
+        if isinstance(rb, failure.Failure) or isinstance(rc, failure.Failure) or rb is None or rc is None:
+            return dict(setup_failed=repr((rb, rc)))
+        if not c_reachable:
+            # C goes away before B tries to resolve the gift: the gift call must fail, later calls must still run in order
+            C.stopService()
+            E.turn()
+            net.run(rng)
+        side = Side()
+        results = {}
+        for cid, k in enumerate(plan):
+            kw = dict(cid=cid)
+            if k == "g":
+                kw["g"] = rc
+            elif k == "s":
+                kw["a"] = StallArg(side, 1)
+            rb.callRemote("m", **kw).addBoth(lambda r, cid=cid: results.setdefault(cid, short(r)))
+        chunk = (lambda r: r.choice(chunk_sizes)) if chunk_sizes else None
+        steps = 0
+        for _ in range(200000):
+            c = net.deliverable()
+            if not c:
+                if side.stall is not None and not side.stall.called:
+                    st, side.stall = side.stall, None
+                    st.callback(None)
+                    E.turn()
+                    continue
+                break
+            if side.stall is not None and not side.stall.called and rng.random() < 0.05:
+                st, side.stall = side.stall, None
+                st.callback(None)
+                E.turn()
+            net.step(rng.choice(c), chunk(rng) if chunk else None)
+            steps += 1
+        return dict(entered=list(tb.entered), results=results, steps=steps, gifts=list(tb.gifts))
+
+
+# ---------------------------------------------------------------------------------------------------------------
+# unit-level measurements of the queue disciplines that translate/g_order.py reads from the AST
+
+def measure_disciplines(n):
+    """-> dict(sendq_layout, sendq_drain, idle_wakes, busy_wakes, evq_batch1, evq_batch2, inq_layout, inq_first)"""
+    from foolscap.slicers.root import RootSlicer
+    from foolscap import eventual
+
+    class FakeProto:
+        debugSend = False
+
+        def __init__(self, depth):
+            self.slicerStack = [None] * depth
+    out = {}
+    with E.quiet():
+        E.reset_clock()
+        rs = RootSlicer(FakeProto(2))                  # something is being serialized: send() only enqueues
+        for i in range(n):
+            rs.send(i)
+        out["sendq_layout"] = [o for o, _ in rs.sendQueue]
+        got = []
+        for i in range(n):
+            got.append(next(rs))
+        out["sendq_drain"] = got
+        woke = []
+        for depth, key in ((1, "idle_wakes"), (2, "busy_wakes")):
+            rs = RootSlicer(FakeProto(depth))
+            rs.producingDeferred = defer.Deferred()
+            rs.producingDeferred.addCallback(lambda r, key=key: woke.append(key))
+            rs.send("x")
+        out["idle_wakes"] = "idle_wakes" in woke
+        out["busy_wakes"] = "busy_wakes" in woke
+        q = eventual._SimpleCallQueue()
+        ran = []
+
+        def thunk(j):
+            ran.append(j)
+            if j < 100:
+                q.append(thunk, (100 + j,), {})
+        for i in range(n):
+            q.append(thunk, (i,), {})
+        q._turn()
+        out["evq_batch1"] = list(ran)
+        del ran[:]
+        q._turn()
+        out["evq_batch2"] = list(ran)
+        if q._timer is not None and q._timer.active():
+            q._timer.cancel()
+        # Broker inbound queue: deliveries that are never ready
+        b = broker.Broker(TubRef("unit"))
+        b.transport = QTransport()
+        b.connectionMade()
+
+        class D:
+            def __init__(self, i):
+                self.i = i
+                self.reqID = 0
+        for i in range(n):
+            b.scheduleCall(D(i), defer.Deferred())
+        out["inq_layout"] = [d.i for d, _ in b.inboundDeliveryQueue]
+        taken = []
+        real = b.inboundDeliveryQueue
+        b.doNextCall()
+        out["inq_first"] = [d.i for d, _ in b.inboundDeliveryQueue]
+        b.doNextCall()      # blocked behind the first one
+        out["inq_second"] = [d.i for d, _ in b.inboundDeliveryQueue]
+        E.reset_clock()
+    return out
